@@ -18,14 +18,16 @@ def main():
     tier = sys.argv[5] if len(sys.argv) > 5 else "quick"
     dst = os.path.join(VERIF, "seeded", sid)
     os.makedirs(dst, exist_ok=True)
-    for f in ("patch.diff", "demo.py"):
-        shutil.copy(os.path.join(src, f), os.path.join(dst, f))
+    if src != "-":       # "-": confirm again what is in seeded/<id> already
+        for f in ("patch.diff", "demo.py"):
+            shutil.copy(os.path.join(src, f), os.path.join(dst, f))
     wt = f"/tmp/cs_{sid}"
     sh(f"git -C /repo worktree remove --force {wt}; git -C /repo worktree prune; git -C /repo worktree add -q --detach {wt} HEAD")
     meta = {"id": sid, "property": prop, "needs_to_manifest": needs, "ran": {}}
     try:
         demo = os.path.join(dst, "demo.py")
-        text = open(demo).read().replace(src, wt)
+        import re
+        text = re.sub(r"/tmp/s[a-z]_C\d\d", wt, open(demo).read()) if src == "-" else open(demo).read().replace(src, wt)
         demo_wt = os.path.join(wt, "demo_seed.py")
         open(demo_wt, "w").write(text)
         r0 = sh(f"cd {wt} && PYTHONPATH={wt}/src timeout 600 /venv/bin/python demo_seed.py")
